@@ -50,3 +50,83 @@ def validate_ip_spec(n=600):
 def date_formats():
     from pregex.meta.essentials import Date
     return list(Date._Date__date_formats())
+
+
+# ---------------------------------------------------------------------------------------------------------------
+# G6: Pregex.__escape, exhaustively over single characters (E5: a 1-character replace is a character-wise map, so
+# the composition of such maps is character-wise and is determined by its values on single characters)
+
+META = "\\^$()[]{}?+*.|/"
+
+
+def _esc_spec(s):
+    out = s.replace("\\", "\\\\")
+    for c in "^$()[]{}?+*.|/":
+        out = out.replace(c, "\\" + c)
+    return out
+
+
+def _esc_chunk(rng):
+    from pregex.core.pre import Pregex
+    f = Pregex._Pregex__escape
+    bad = []
+    for cp in range(*rng):
+        c = chr(cp)
+        if f(c) != _esc_spec(c):
+            bad.append(cp)
+            if len(bad) > 5:
+                break
+    return bad
+
+
+def escape_check(workers=16, n_random=3000, seed=0):
+    import multiprocessing, random
+    from pregex.core.pre import Pregex
+    step = 0x110000 // (workers * 4) + 1
+    chunks = [(a, min(a + step, 0x110000)) for a in range(0, 0x110000, step)]
+    with multiprocessing.Pool(workers) as pool:
+        bad = [b for r in pool.map(_esc_chunk, chunks) for b in r]
+    rnd = random.Random(seed)
+    alpha = list(META) + list("ab1 \n\té") + ["\\", "\\"]
+    bad_multi = []
+    for _ in range(n_random):
+        s = "".join(rnd.choice(alpha) for _ in range(rnd.randint(0, 8)))
+        if Pregex._Pregex__escape(s) != _esc_spec(s):
+            bad_multi.append(s)
+            if len(bad_multi) > 5:
+                break
+        p = Pregex(s)
+        if not (p.is_exact_match(s) and (s == "" or not p.is_exact_match(s + s[-1])) and (len(s) < 1 or not p.is_exact_match(s[:-1]))):
+            bad_multi.append("exact-match:" + s)
+    return {"single_chars": 0x110000, "bad_single": bad[:10], "random_strings": n_random, "bad_multi": bad_multi[:10]}
+
+
+def _r1_chunk(rng):
+    from pvc import native as N
+    N.install_noopt()
+    p, c = N._parser()
+    bad = []
+    for cp in range(*rng):
+        ch = chr(cp)
+        txt = ("\\" + ch) if ch in META else ch
+        try:
+            t = p.parse(txt, 24)
+            ok = len(t) == 1 and str(t[0][0]) == "LITERAL" and t[0][1] == cp
+        except Exception:
+            ok = False
+        if not ok:
+            bad.append(cp)
+            if len(bad) > 5:
+                break
+    return bad
+
+
+def r1_validate(workers=16):
+    """axiom R1, validated completely: every code point outside the metacharacter set is the literal itself, every
+    metacharacter (and '/') preceded by a backslash is that literal"""
+    import multiprocessing
+    step = 0x110000 // (workers * 4) + 1
+    chunks = [(a, min(a + step, 0x110000)) for a in range(0, 0x110000, step)]
+    with multiprocessing.Pool(workers) as pool:
+        bad = [b for r in pool.map(_r1_chunk, chunks) for b in r]
+    return {"code_points": 0x110000, "bad": bad[:10]}
